@@ -172,15 +172,20 @@ func (c *Conn) Read(b []byte) (n int, err error) {
 
 	// If the buffer is empty and we would get io.EOF, nil this does not
 	// necessarily mean that the connection is closed.
-	// In this case wait for a signal that there is more data to read.
-	// When the connection is closed this same signal is sent and our final read
+	// In this case wait for a signal that there is more data to read and test
+	// again: the signal may be stale (the data was consumed by an earlier read)
+	// or may have been sent for an empty data packet.
+	// When the connection is closed the channel is closed and our final read
 	// from the empty buffer will result in 0, io.EOF as expected.
-	if c.readBuf.Len() == 0 {
+	for c.readBuf.Len() == 0 {
 		c.readLock.Unlock()
 		verifhook.Yield("ibb.read.checked")
-		<-c.readReady
+		_, isOpen := <-c.readReady
 		verifhook.Yield("ibb.read.woken")
 		c.readLock.Lock()
+		if !isOpen {
+			break
+		}
 	}
 
 	return c.readBuf.Read(b)
